@@ -73,6 +73,10 @@ def api_tail(rng, nreac, can_edit=True, can_export=True, extras=()):
         # the user also writes the reactions to a file after the first rendering (read-only in intent)
         first = next(i for i, st in enumerate(steps) if st["s"] in ("render", "to_code", "export"))
         steps.insert(first + 1, {"s": "write", "fmt": ["naunet", "naunet", ""][(h // 4) % 3]})
+    elif h % 4 == 1:
+        # ... or generates the patch files for a host code (`naunet render --patch enzo`) from the network
+        first = next(i for i, st in enumerate(steps) if st["s"] in ("render", "to_code", "export"))
+        steps.insert(first + (h // 4) % 2, {"s": "enzo_patch", "device": "cpu"})
     return steps
 
 
@@ -270,6 +274,9 @@ def fam_cli_uclchem(rng, idx, with_binding, repl="full"):
     core = [ln for ln in grain if ln.split(",")[0] in ("CO", "#CO") and ln.split(",")[1] in ("FREEZE", "DESCR", "DEUVCR", "DESOH2")]
     rest = [ln for ln in grain if ln not in core]
     pick = rng.sample(gas, min(len(gas), rng.randint(4, 10))) + core + rng.sample(rest, min(len(rest), rng.randint(1, 4)))
+    if idx % 2 == 0:
+        # photodissociation of CO (self-shielded): the rate calls the shielding routine of the configured table
+        pick += [ln for ln in gas if ln.startswith("CO,PHOTON,") and ln not in pick]
     net = {"elements": list(UCL_ELEMENTS), "pseudo_elements": ["CR", "CRP", "PHOTON", "CRPHOT"], "grain_model": model}
     table = {"full": dict(UCL_REPLACEMENT), "none": {}, "partial": {"HE": "He"}}[repl]
     cli = {"files": ["reactions.ucl"], "formats": ["uclchem"], "replacement": table}
@@ -691,11 +698,15 @@ def perturb(rng, d, k, op=None):
         if n.get("allowed_species"):
             n["allowed_species"] = n["allowed_species"] + ["N"]
     elif op == "shielding":
+        # (every table the templates know: the method number behind a table differs between them)
+        tables = [{"CO": "V09Table"}, {"CO": "VB88Table"}, {"H2": "L96Table"}, {"CO": "VB88Table", "H2": "L96Table"},
+                  {"N2": "L13Table", "CO": "V09Table"}][(K.hash64(d["id"]) + k) % 5]
+        tables = {sp: tb for sp, tb in tables.items() if tb in KNOWN_SHIELDING.get(sp, ())} or {"H2": "L96Table"}
         if t["entry"] == "api" and rng.random() < 0.5:
             pos = next((i for i, st in enumerate(t["steps"]) if st["s"] in RENDER_KINDS), len(t["steps"]))
-            t["steps"].insert(pos, {"s": "shielding_inplace", "values": {"CO": "V09Table"}})
+            t["steps"].insert(pos, {"s": "shielding_inplace", "values": tables})
         else:
-            n["shielding"] = dict(n.get("shielding") or {}, H2="L96Table")
+            n["shielding"] = dict(n.get("shielding") or {}, **tables)
     elif op == "rate_modifier":
         rm = dict(n.get("rate_modifier") or {})
         rm[str(rng.choice([0, 1, 10, 11]))] = "7.0e-11 * zeta"
@@ -790,8 +801,8 @@ def build_library(seed, tier):
     twins = []
     for d in lib:
         rsteps = [i for i, st in enumerate(d["steps"]) if st["s"] in RENDER_KINDS]
-        if d["entry"] == "api" and (len(rsteps) >= 2 or any(st["s"] in ("touch", "write") for st in d["steps"])) and rsteps:
-            keep = [st for i, st in enumerate(d["steps"]) if (st["s"] not in RENDER_KINDS and st["s"] not in ("touch", "write")) or i == rsteps[-1]]
+        if d["entry"] == "api" and (len(rsteps) >= 2 or any(st["s"] in ("touch", "write", "enzo_patch") for st in d["steps"])) and rsteps:
+            keep = [st for i, st in enumerate(d["steps"]) if (st["s"] not in RENDER_KINDS and st["s"] not in ("touch", "write", "enzo_patch")) or i == rsteps[-1]]
             twins.append(dict(d, id=d["id"] + "~last", steps=keep, twin_of=d["id"]))
     # sibling variants (solo only, like the twins above): the same script with a SECOND network
     # built from the first one's reactions and edited / rendered just before the last rendering.
@@ -844,6 +855,7 @@ def build_library(seed, tier):
 
 
 RENDER_KINDS = ("render", "to_code", "cli_render", "export")
+KNOWN_SHIELDING = {"H2": ("L96Table",), "CO": ("V09Table", "VB88Table"), "N2": ("L13Table",)}
 
 
 def features(d):
@@ -893,7 +905,7 @@ def features(d):
             f.add("edit_between_renderings")
     if any(st.get("inplace") for st in d["steps"]):
         f.add("in_place_rerender_after_edit")
-    for k in ("export", "to_code", "cli_render", "touch", "add_str", "set_eb", "shielding_inplace", "write"):
+    for k in ("export", "to_code", "cli_render", "touch", "add_str", "set_eb", "shielding_inplace", "write", "enzo_patch"):
         if k in kinds:
             f.add("step_" + k)
     if len(d.get("files", {})) >= 2 and d["entry"] == "api" and len({v.split(".")[-1] for v in d["files"]}) >= 2:
@@ -907,4 +919,4 @@ ESSENTIAL_FEATURES = ["two_grain_charge_states", "cooling", "replacement_table",
                       "cli_binding_energy", "cli_loads_custom_format", "two_isolated_required_species", "krome_var_common",
                       "krome_format_line", "edit_between_renderings", "in_place_rerender_after_edit", "step_export",
                       "surface_prefix_G", "reactions_without_file_index", "ode_modifier", "rate_modifier", "step_add_str",
-                      "step_shielding_inplace", "step_write"]
+                      "step_shielding_inplace", "step_write", "step_enzo_patch"]
